@@ -59,6 +59,7 @@ pub const FRAGS: &[&str] = &[
     // case mappings that are not 1:1 or map into ASCII), alone and glued to ASCII neighbours
     "\u{903}", "\u{345}", "\u{24b6}", "\u{2118}", "\u{212e}", "\u{b7}", "\u{301}", "\u{663}", "\u{b2}", "\u{bd}", "\u{2167}", "\u{200b}", "\u{180e}", "\u{212a}", "\u{17f}", "\u{130}", "\u{131}", "\u{df}", "\u{1c5}", "\u{fb01}", "\u{85}", "\u{17f}et", "\u{212a}eep", "%\u{24b6}", "&\u{24b6}", "%\u{903}", "&\u{903}", "x\u{301}", "\u{903}y", "\u{2118}x", "e\u{301}q", "%\u{2118}(", "&\u{212e}.", "\u{b2}x", "x\u{b2}", "1\u{663}", "run\u{b7}", "\u{130}f", "%\u{131}f", "%\u{17f}tr(", "data\u{200b}",
     "\u{128}", "\u{129}", "\u{12c}", "\u{12f}", "\u{13b}", "\u{13d}", "\u{127}", "\u{122}", "\u{125}m", "\u{126}v", "\u{12a}", "\u{10a}", "\u{120}", "\u{100}", "\u{2728}", "%upcase\u{2728}x)", "%m\u{128}a)", "%let a\u{13d}1;",
+    "%m /*", "%m /**/ /* x", "\"%m /* x", "%m\n/* c */ /*", "%m /* %put x;", "%m(a /*", "%l /*c*/ : /*",
     "\0", "%end\0", "%m(\0)", "\"\0\"", "%\0", "&\0", "'\0", "/*\0", "%let a=\0;", "%eval(\0)", "1\0", "a\0",
     "\r\n", "\t", "18446744073709551615", "18446744073709551616", "0FFFFFFFFFFFFFFFFFx", "1e309", "1E+5", "1e-5x", "\\", "`", "\u{1}", "\u{feff}",
     "%sysfunc(max(", ",", ",", "=", "(", ")", ")", "x=1;", "run;", "%m;", "%m(1);", "%end; ", "%then %do;", "%else %do;", "%do i=1 %to 3;", "%do %while(", "%do %until(",
